@@ -677,3 +677,98 @@ func TestFutureRace(t *testing.T) {
 	})
 	suite.Crashy = false
 }
+
+// ---------------------------------------------------------------- Value racing the first Set, many times per case
+
+type WFPlan struct {
+	Instances int `json:"instances"`
+	Observers int `json:"observers"`
+	Sets      int `json:"sets"`
+}
+
+func genWF(t *rapid.T) WFPlan {
+	return WFPlan{Instances: rapid.IntRange(4, 40).Draw(t, "instances"), Observers: rapid.IntRange(1, 3).Draw(t, "observers"), Sets: rapid.IntRange(1, 3).Draw(t, "sets")}
+}
+
+// runWF: for each of many fresh Watchables, observers and one setter start at the same instant, so
+// that Value() races the very first Set; afterwards every observer must sit on the final value.
+func runWF(p WFPlan) (vk.Outcome, error) {
+	var out vk.Outcome
+	sawZero := false
+	err := bubble(func() error {
+		type inst struct {
+			w    xsync.Watchable[int]
+			seen [][]int
+			mu   sync.Mutex
+		}
+		insts := make([]*inst, p.Instances)
+		stop := make(chan struct{})
+		var wg, setWg sync.WaitGroup
+		for i := range insts {
+			in := &inst{seen: make([][]int, p.Observers)}
+			insts[i] = in
+			for o := 0; o < p.Observers; o++ {
+				wg.Add(1)
+				go func(o int) {
+					defer wg.Done()
+					for {
+						v, ch := in.w.Value()
+						in.mu.Lock()
+						in.seen[o] = append(in.seen[o], v)
+						in.mu.Unlock()
+						select {
+						case <-ch:
+						case <-stop:
+							return
+						}
+					}
+				}(o)
+			}
+			setWg.Add(1)
+			go func() {
+				defer setWg.Done()
+				for k := 1; k <= p.Sets; k++ {
+					in.w.Set(k)
+				}
+			}()
+		}
+		setWg.Wait()
+		synctest.Wait()
+		var verr error
+		for i, in := range insts {
+			final, _ := in.w.Value()
+			if final != p.Sets {
+				verr = vk.Violf("watchable-value", "instance %d: Value() = %d after Set(1..%d)", i, final, p.Sets)
+			}
+			in.mu.Lock()
+			for o, seen := range in.seen {
+				if len(seen) == 0 || seen[len(seen)-1] != p.Sets {
+					verr = vk.Violf("watchable-stale", "instance %d observer %d is parked after seeing %v; the final value is %d (a Value() that raced the first Set returned a channel that is never closed?)", i, o, seen, p.Sets)
+				}
+				for j := 1; j < len(seen); j++ {
+					if seen[j] <= seen[j-1] {
+						verr = vk.Violf("watchable-order", "instance %d observer %d saw %v", i, o, seen)
+					}
+				}
+				if len(seen) > 0 && seen[0] == 0 {
+					sawZero = true
+				}
+			}
+			in.mu.Unlock()
+		}
+		close(stop)
+		wg.Wait()
+		return verr
+	})
+	out.NonTrivial = sawZero
+	if sawZero {
+		out.Label("value-before-first-set")
+	}
+	out.Execs = p.Instances
+	return out, err
+}
+
+func TestWatchableFirstSet(t *testing.T) {
+	theT = t
+	vk.Run(t, suite, "watchable-first-set", 600, genWF, reps(runWF))
+}
